@@ -119,32 +119,19 @@ Lemma ser_follows_rename h v nm sp :
   sp_val sp = v -> ser_spec (rename h v nm) sp = (nm, sp_dev sp, map (fun d => (sd_axis d, sd_shards d)) (sp_dims sp)).
 Proof. intros E. unfold ser_spec. rewrite E, name_of_rename_same. reflexivity. Qed.
 
-(* round trip below IR 11: the model configurations are dropped, and so are the annotations of every node of
-   the main graph and of the function (scopes 0 and 1) *)
-Lemma rt_nodes_old_ir h : forall nodes acc nodes' acc',
-  s_ir h < MULTI_DEVICE_SUPPORTED_VERSION -> rt_nodes h [] nodes acc = (nodes', acc') ->
-  Forall (fun p => node_scope h (fst p) < 2 -> n_dc (snd p) = []) nodes'.
-Proof.
-  induction nodes as [|[n nd] r IH]; intros acc nodes' acc' Hir R; simpl in R.
-  - inversion R; subst. constructor.
-  - destruct (rt_keep h n) eqn:K.
-    + destruct (rt_dcs h [] (node_scope h n) (n_dc nd) acc) as [dcs acc1].
-      destruct (rt_nodes h [] r acc1) as [r' acc2] eqn:Rr. inversion R; subst.
-      constructor; [|eapply IH; eassumption]. simpl. intros Hs. unfold rt_keep in K.
-      apply orb_true_iff in K. destruct K as [K|K]; lia.
-    + destruct (rt_nodes h [] r acc) as [r' acc2] eqn:Rr. inversion R; subst.
-      constructor; [|eapply IH; eassumption]. simpl. reflexivity.
-Qed.
-
+(* round trip below IR 11: every annotation (at every nesting depth) and every configuration is dropped *)
 Lemma roundtrip_old_ir h h' :
   s_ir h < MULTI_DEVICE_SUPPORTED_VERSION -> roundtrip h = (h', Ok tt) ->
-  s_cfgs h' = [] /\ Forall (fun p => node_scope h (fst p) < 2 -> n_dc (snd p) = []) (s_nodes h').
+  s_cfgs h' = [] /\ Forall (fun p => n_dc (snd p) = []) (s_nodes h') /\ DevInv h'.
 Proof.
   intros Hir. unfold roundtrip. destruct (rt_domain h); simpl; [|discriminate].
   destruct (ser_ok h); simpl; [|discriminate].
   assert (E : s_ir h <? MULTI_DEVICE_SUPPORTED_VERSION = true) by lia. rewrite E.
-  destruct (rt_nodes h [] (s_nodes h) ([], s_nextv h, s_nextc h)) as [nodes [[names nv] nc]] eqn:R.
-  intros [= <-]. simpl. split; [reflexivity|]. eapply rt_nodes_old_ir; eassumption.
+  rewrite rt_nodes_old_ir by exact Hir. intros [= <-]. simpl.
+  assert (F : Forall (fun p : Z * node => n_dc (snd p) = [])
+                (map (fun p : Z * node => (fst p, with_dc (snd p) [])) (s_nodes h))).
+  { rewrite Forall_map. apply Forall_forall. intros p _. reflexivity. }
+  split; [reflexivity|]. split; [exact F|]. apply inv_initial; [reflexivity | exact F].
 Qed.
 
 (* ------------------------------------------------------------------ examples: the hypotheses are satisfiable *)
@@ -299,22 +286,13 @@ Example nest_roundtrip :
   (let h2 := fst (clone h) in snd (clone h) = Ok tt /\ roundtrip h2 = (h2, Ok tt) /\ check h2 = []).
 Proof. vm_compute. repeat split. Qed.
 
-(* Observation outside the property's quantifier (it speaks of round trips at IR >= 11): below IR 11 the gate is
-   not applied inside subgraph bodies, so a nested node keeps its annotation while the model's configurations
-   are dropped — the reference comes back dangling and the library's check reports it. *)
+(* below IR 11 the nested model loses every annotation, also inside the bodies *)
 Definition nest_h0_old : state :=
   mkSt (s_names nest_h0) (s_nodes nest_h0) (s_gin nest_h0) [] 7 0 10 (s_sc nest_h0).
-Lemma old_ir_nested_dangles :
-  exists h, DevInv h /\ s_ir h < MULTI_DEVICE_SUPPORTED_VERSION /\ snd (roundtrip h) = Ok tt
-            /\ ~ DevInv (fst (roundtrip h)) /\ check (fst (roundtrip h)) = [(3, 1, 0); (10, 1, 0); (10, 1, 1)].
-Proof.
-  exists (run nest_h0_old (firstn 2 nest_ops)). split; [|split; [|split; [|split]]].
-  - apply inv_reachable.
-    + apply inv_initial; [reflexivity|]. repeat constructor.
-    + simpl. repeat split; auto; try (left; reflexivity). unfold devs_ok. repeat constructor; simpl; lia.
-  - vm_compute. reflexivity.
-  - vm_compute. reflexivity.
-  - intros [_ Hn]. vm_compute in Hn. inversion Hn as [|? ? _ Hn2]; subst. inversion Hn2 as [|? ? Hnd _]; subst.
-    inversion Hnd as [|? ? [Hc _] _]; subst. exact Hc.
-  - vm_compute. reflexivity.
-Qed.
+Example nest_old_ir :
+  let h := run nest_h0_old nest_ops in
+  map (fun p => length (n_dc (snd p))) (s_nodes h) = [1%nat; 1%nat; 1%nat; 0%nat; 1%nat]
+  /\ snd (roundtrip h) = Ok tt
+  /\ map (fun p => length (n_dc (snd p))) (s_nodes (fst (roundtrip h))) = [0%nat; 0%nat; 0%nat; 0%nat; 0%nat]
+  /\ s_cfgs (fst (roundtrip h)) = [] /\ check (fst (roundtrip h)) = [].
+Proof. vm_compute. repeat split. Qed.
